@@ -5,13 +5,13 @@ F = "scylla/src/cluster/metadata/merge_channel.rs:"
 PROPERTY = {
     "title": "metadata updates handed between driver workers are neither lost nor duplicated",
     "level": "model_checking",
-    "level_text": "Bounded model checking of the real hand-off code at poll granularity: Kani/CBMC explores EVERY schedule of up to 4 (quick) / 6 (thorough) steps from {merge(x), drop sender, start receive, poll receive, cancel receive} over the real merge_channel (tokio Notify, std Mutex, atomics as compiled) with a counting waker and checks: each received value is exactly the set of updates merged since the previous receive (none lost, none duplicated, in order), a poll is Ready whenever a value is pending, a parked consumer is woken by merge and by sender drop, None only after the sender is gone and the slot is empty, whatever is pending at the end is obtainable by one more receive, and modify returns Err after the receiver is dropped.",
+    "level_text": "Bounded model checking of the real hand-off code at poll granularity: Kani/CBMC explores EVERY schedule of up to 3 (quick) / 5 (thorough) steps from {merge(x), drop sender, start receive, poll receive, cancel receive} over the real merge_channel (tokio Notify, std Mutex, atomics as compiled) with a counting waker and checks: each received value is exactly the set of updates merged since the previous receive (none lost, none duplicated, in order), a poll is Ready whenever a value is pending, a parked consumer is woken by merge and by sender drop, None only after the sender is gone and the slot is empty, whatever is pending at the end is obtainable by one more receive, and modify returns Err after the receiver is dropped.",
     "level_note": "Bounded stand-in (schedule length), sequential: true multi-threaded interleavings inside modify/recv (between mutex release and notify_one, Acquire/Release pairs) are NOT covered — Kani has no threads. The user-visible liveness sentences (refresh eventually answered) are not covered.",
     "technique": "bounded model checking of the real code under a symbolic step schedule with Kani (labelled bounded; contracts as assertions over a ghost slot)",
     "timeout": 1500,
     "kani": [
-        Harness("c19_schedule_4", "C19.schedule.le4", "BOUNDED", "all schedules of <= 4 steps", bound="4 steps", functions=[F + "merge_channel", F + "Sender::modify", F + "Sender::drop", F + "Receiver::recv"]),
-        Harness("c19_schedule_6", "C19.schedule.le6", "BOUNDED", "all schedules of <= 6 steps", bound="6 steps", tier="thorough", functions=[F + "Receiver::recv", F + "Sender::modify"]),
+        Harness("c19_schedule_3", "C19.schedule.le3", "BOUNDED", "all schedules of <= 3 steps", bound="3 steps", functions=[F + "merge_channel", F + "Sender::modify", F + "Sender::drop", F + "Receiver::recv"]),
+        Harness("c19_schedule_5", "C19.schedule.le5", "BOUNDED", "all schedules of <= 5 steps", bound="5 steps", tier="thorough", timeout=3000, functions=[F + "Receiver::recv", F + "Sender::modify"]),
         Harness("c19_modify_after_receiver_drop", "C19.sender_learns_receiver_gone", "PROVED-C", "modify returns Err(SendError) once the receiver is dropped", functions=[F + "Sender::modify", F + "Receiver::drop"]),
         Harness("c19_canary_value_received_twice", "C19.canary", "BOUNDED", "a false claim must be refuted", carries=False, canary=True),
     ],
